@@ -492,6 +492,30 @@ pub fn run(ctx: &Ctx) {
             ctx.violation("ed.default", &format!("CompressedEdwardsY::default() = {} is not the encoding of the identity", hex(&dc.0)), json!({"kind": "ed_default"}));
         }
     }
+    // ---- the prime-order wrapper (`group` feature): its own equality impl must be the group's equality — P against
+    //      every one of {[k]B : -4 <= k <= 4}, so P vs -P (same y), P vs 2P, identity vs non-identity
+    {
+        use curve25519_dalek::edwards::SubgroupPoint;
+        use curve25519_dalek::scalar::Scalar;
+        use group::Group;
+        let g = SubgroupPoint::generator();
+        let pts: Vec<(i64, SubgroupPoint)> = (-4i64..=4).map(|k| (k, if k >= 0 { g * Scalar::from(k as u64) } else { -(g * Scalar::from((-k) as u64)) })).collect();
+        for (i, a) in &pts {
+            let want_enc = if *i >= 0 { ed::mul_base(&U::from_u64(*i as u64)) } else { ed::mul_base(&U::from_u64((-*i) as u64)).neg() }.compress();
+            ctx.eval(1);
+            if EdwardsPoint::from(*a).compress().0 != want_enc {
+                ctx.violation("ed.subgroup", &format!("[{}]G as a SubgroupPoint encodes as {}", i, hex(&EdwardsPoint::from(*a).compress().0)), json!({"kind": "subgroup_eq", "i": i}));
+            }
+            for (j, b) in &pts {
+                ctx.eval(1);
+                let want = i == j;
+                let got = guarded(|| (a == b, bool::from(a.ct_eq(b)), bool::from(Group::is_identity(a))));
+                if got != Ok((want, want, *i == 0)) {
+                    ctx.violation("ed.subgroup", &format!("SubgroupPoint [{}]G vs [{}]G: (==, ct_eq, is_identity) = {:?} want ({}, {}, {})", i, j, got, want, want, *i == 0), json!({"kind": "subgroup_eq", "i": i, "j": j}));
+                }
+            }
+        }
+    }
     // ---- the history machine
     let mpool = pool(if quick { 3 } else { 5 }, false);
     let mut inits = pool(if quick { 4 } else { 10 }, true);
